@@ -68,3 +68,69 @@ Theorem C03_lheading_maps : forall cfg term, term_same term -> forall st sl el s
   r_lheading cfg term st sl el false = Ok (true, st') -> sl < el -> leaf_maps st sl st' /\ b_line st' <= el.
 Proof. exact r_lheading_maps. Qed.
 Print Assumptions C03_lheading_maps.
+
+(* ---- the whole block parser ------------------------------------------------------------- *)
+From MD Require Import Model.Ruler Lemmas.MapWhole Lemmas.PipelineSafe.
+
+(* Every token ParserBlock.parse appends carries a map [b, e) with 0 <= b < e <= lineMax (or none),
+   the cursor ends inside the line table - for EVERY source, env and every configuration that
+   has the paragraph rule and whose named terminator chains hold only rules with a silent mode.
+   The proof carries, through every rule, container, terminator chain and table rewrite: each
+   successful rule advances the cursor; nested tokenize makes progress, so container maps are
+   non-empty; the reference rule's line counter never exceeds the line feeds of the lines it
+   read (no line feed lies between a start mark and its end mark, for fresh tables and for
+   the rewritten / restored tables of block quotes and list items alike). *)
+Theorem C03_block_parse_maps :
+  forall cfg rf cf, silent_terms cfg -> mem_str nm_paragraph (c_rules cfg) = true ->
+  forall src env toks st',
+    block_parse cfg rf cf src env toks = Ok st' ->
+    let n := b_lineMax (state_init src env toks) in
+    b_lineMax st' = n /\ 0 <= b_line st' <= n
+    /\ exists seg, b_tokens st' = toks ++ seg /\ Forall (map_in 0 n) seg.
+Proof. exact block_parse_maps. Qed.
+Print Assumptions C03_block_parse_maps.
+
+(* one rule call, any rule of the chain: on success the cursor moves strictly forward, stays in the
+   table, the appended maps lie in [startLine, new line], the table invariant is kept; on failure
+   or in silent mode the state comes back unchanged (parentType apart) *)
+Theorem C03_rule_contract :
+  forall cfg rf cf rec term, rec_c rec -> term_fr term ->
+  forall n st sl el silent b st',
+    apply_rule cfg rf cf rec term n st sl el silent = Ok (b, st') ->
+    (silent = true -> silent_capable n) ->
+    rule_c st sl el silent b st' /\ (str_eqb n nm_paragraph = true -> silent = false -> b = true).
+Proof. exact apply_rule_c. Qed.
+Print Assumptions C03_rule_contract.
+
+(* the nested tokenize at any depth *)
+Theorem C03_tokenize_contract :
+  forall cfg rf cf, silent_terms cfg -> mem_str nm_paragraph (c_rules cfg) = true ->
+  forall d, rec_c (tokenize cfg rf cf d).
+Proof. exact tokenize_rec_c. Qed.
+Print Assumptions C03_tokenize_contract.
+
+Theorem C03_fresh_tables_invariant : forall src env toks, TI (state_init src env toks).
+Proof. exact state_init_TI. Qed.
+Print Assumptions C03_fresh_tables_invariant.
+
+(* every Ruler-compiled configuration of a rule table in which code, lheading and paragraph have
+   no alt chains (as in the generated table) satisfies the terminator hypothesis *)
+Theorem C03_ruler_cfg_silent_terms :
+  forall (rs : list (@rule str)) code mn html defs,
+    alts_ok rs = true -> silent_terms (mkBCfg (compile_chain rs []) (compile_chain rs) code mn html defs).
+Proof. exact ruler_cfg_silent_terms. Qed.
+Print Assumptions C03_ruler_cfg_silent_terms.
+
+(* the hypotheses are met by the generated rule table and by a concrete document with a heading,
+   a block quote holding a list, a definition and a paragraph *)
+From MD Require Import Gen.Rules.
+Example C03_registry_alts_ok :
+  alts_ok (map (fun na => mkRule (fst na) true (fst na) (snd na)) block_registry) = true.
+Proof. vm_compute. reflexivity. Qed.
+
+Example C03_maps_theorem_applies :
+  let cfg := mkBCfg (compile_chain (map (fun na => mkRule (fst na) true (fst na) (snd na)) block_registry) [])
+                    (compile_chain (map (fun na => mkRule (fst na) true (fst na) (snd na)) block_registry)) true 20 false false in
+  mem_str nm_paragraph (c_rules cfg) = true
+  /\ exists st', block_parse cfg (fun s => s) (fun s => s) ex_src env0 [] = Ok st' /\ 5 < len (b_tokens st').
+Proof. cbv zeta. split; [vm_compute; reflexivity|]. eexists. split; vm_compute; reflexivity. Qed.
